@@ -272,6 +272,10 @@ func (p *Packet) SetPayload(data []byte) (int, error) {
 	if freeSpace > len(data) {
 		p.SetAdaptationFieldControl(PayloadAndAdaptationFieldFlag)
 		af, _ := p.AdaptationField()
+		if af.Length() == 0 {
+			// growing an empty adaptation field: its flags byte still holds an old payload byte
+			af[5] = 0x00
+		}
 
 		af.setLength(PacketSize - (len(data) + 4 + 1)) // header length + adaptation field length
 		af.stuffAF()
